@@ -191,9 +191,10 @@ def strings(case):
     node = None
     for names in reversed(case['chain']):
         style = {'string_set': tuple((n, ()) for n in names) if names else 'none'}
-        node = NS(style=style, children=[node] if node is not None else [])
+        # (real boxes also carry the evaluated assignments as the attribute `string_set`)
+        node = NS(style=style, children=[node] if node is not None else [], string_set=[(n, '') for n in names])
     if node is None:
-        node = NS(style={'string_set': 'none'}, children=[])
+        node = NS(style={'string_set': 'none'}, children=[], string_set=[])
     stub = NS(current_page=case['cur'])
     return LayoutContext.get_string_or_element_for(stub, store, node, 's', case['kw'])
 
